@@ -37,6 +37,16 @@ func (r *ConnRec) Data() []byte {
 	return append([]byte(nil), r.data...)
 }
 
+// DataFrom returns a copy of the bytes received from offset off on.
+func (r *ConnRec) DataFrom(off int) []byte {
+	r.mu.Lock()
+	defer r.mu.Unlock()
+	if off >= len(r.data) {
+		return nil
+	}
+	return append([]byte(nil), r.data[off:]...)
+}
+
 func (r *ConnRec) Len() int {
 	r.mu.Lock()
 	defer r.mu.Unlock()
